@@ -264,9 +264,32 @@ class MatEngine:
         b = ('arg', 2, g.names.get(2))
         rets = g.return_values()
         try:
-            if len(rets) != 1:
-                raise MatProblem('specialised body has %d return values' % len(rets))
-            r = self.mat(g, rets[0], ix, {a: 'A', b: 'B'}, depth=1)
+            if len(rets) == 1:
+                r = self.mat(g, rets[0], ix, {a: 'A', b: 'B'}, depth=1)
+            else:
+                # several return sites: all must denote the same matrix.  A site may return the transpose of the others' value only
+                # under a condition that makes that value a vector (1 x k or k x 1: transposition is then the identity on flat storage)
+                vals = []
+                for d in g._defs.get(0, []):
+                    t = g.rvalue_term(d[3], d[1]) if d[0] == 'assign' else g.call_term(d[2], d[1])
+                    vals.append((self.mat(g, t, ix, {a: 'A', b: 'B'}, depth=1), d[1]))
+                main = vals[-1][0]
+                for mv, bb in vals[:-1]:
+                    if mv[0] == main[0]:
+                        continue
+                    if mv[0] == T(main[0]) or T(mv[0]) == main[0]:
+                        conds = [c for c in g.control_conds(bb) if tag(c) == 'bin' and c[1] == 'Eq' and
+                                 ((tag(c[3]) == 'const' and c[3][2] == 1) or (tag(c[2]) == 'const' and c[2][2] == 1))]
+                        dims = [strip_casts(c[2] if tag(c[3]) == 'const' else c[3]) for c in conds]
+                        bad = [d_ for d_ in dims if not (self._same(ix, g, d_, strip_casts(mv[1])) or self._same(ix, g, d_, strip_casts(mv[2])))]
+                        if dims and not bad:
+                            continue
+                        raise MatProblem('one return site yields %s (%s x %s) where the others yield %s; the shortcut is taken when %s, which does not make the '
+                                         'value a single row or column (so it is not its own transpose)' % (
+                                             show_mat(mv[0]), show(mv[1])[:30], show(mv[2])[:30], show_mat(main[0]),
+                                             ' or '.join('%s == 1' % show(d_)[:30] for d_ in (bad or dims)) or 'no dimension test'), definite=True)
+                    raise MatProblem('return sites disagree: %s vs %s' % (show_mat(mv[0]), show_mat(main[0])), definite=True)
+                r = main
             r = (r[0], r[1], r[2], g, ix)
         except MatProblem as e:
             self._summaries[k] = e
